@@ -188,12 +188,12 @@ fn main() {
     ctx.assume("a note is never spent in the block that creates it (anchors refer to earlier blocks), so the generator does not produce that");
     ctx.assume("the client calls update_chain_tip before scanning and truncates before scanning a different continuation (documented flow)");
     let tier = ctx.tier;
-    ctx.run_prop_with("histories", || arb_case_opts(22, 12, true), tier.pick(480, 20_000), 80, run_case);
+    ctx.run_prop_with("histories", || arb_case_opts(22, 12, true), tier.pick(1_200, 20_000), 80, run_case);
     ctx.require_label_fraction("histories", "out-of-order", 0.25);
     ctx.require_label_fraction("histories", "rewind-removes-wallet-tx", 0.10);
     ctx.require_label_fraction("histories", "spend-before-receipt", 0.05);
     ctx.require_label_fraction("histories", "orphan-expiry-boundary-probed", 0.04);
-    ctx.run_prop_with("long-chains", || arb_case_opts(14, 100, true), tier.pick(128, 4_000), 60, run_case);
+    ctx.run_prop_with("long-chains", || arb_case_opts(14, 100, true), tier.pick(256, 4_000), 60, run_case);
     ctx.require_label_fraction("long-chains", "chain>100", 0.5);
     ctx.require_label_fraction("long-chains", "batch>102", 0.1);
     ctx.finish();
